@@ -23,7 +23,7 @@ use vcore::{vassert, Cx, Fail, Res};
 
 use interp::Env;
 use rt::{Rec, Sc, Tp, L};
-use tree::{Carry, Case, Header, PItem, PNode, Prog};
+use tree::{unwinds, Carry, Case, Form, Header, PItem, PNode, Prog};
 
 pub const SIG_FRAME_CURRENT_HOP: &str = "frame-current-hop-drops-traceparent";
 
@@ -89,6 +89,31 @@ struct Judge<'a> {
     handoffs: usize,
     handoff_sampled_with_descendants: bool,
     handoff_unsampled_nonroot_with_descendants: bool,
+    // planned panics
+    /// a planned panic is travelling up through the program being walked
+    unwinding: bool,
+    /// traceparent-establishing scopes (spans, header frames) it has left so far
+    unwound_scopes: usize,
+    /// this thread has caught a panic that unwound through such scopes and is being used on
+    after_panic: bool,
+    exit_panic_sync_call: bool,
+    exit_panic_enter_guard: bool,
+    exit_panic_async: bool,
+    exit_panic_incoming_frame: bool,
+    exit_panic_incoming_frame_async: bool,
+    exit_panic_far_thread: bool,
+    exit_panic_sampled: bool,
+    exit_panic_unsampled: bool,
+    after_panic_new_root: bool,
+}
+
+#[derive(Clone, Copy)]
+enum UnwoundScope {
+    SyncCall,
+    EnterGuard,
+    Async,
+    IncomingFrame,
+    IncomingFrameAsync,
 }
 
 fn count_spans(items: &[PItem]) -> usize {
@@ -200,6 +225,10 @@ impl<'a> Judge<'a> {
         }
         let calls = self.calls.remove(&n.id).unwrap_or_default();
         let root = !a.valid();
+        if root && self.after_panic {
+            // a new trace starts on a thread that has caught a panic which unwound through spans / header frames
+            self.after_panic_new_root = true;
+        }
         if self.case.no_sampler {
             // cannot happen through emit (no sampler is installed); a non-empty log would be a harness error
             vassert!(cx, calls.is_empty(), "sampler-log-not-empty-without-sampler", "node {}: {} sampler call(s) logged although no sampler is installed", n.id, calls.len());
@@ -283,6 +312,11 @@ impl<'a> Judge<'a> {
             return Ok(Active { tp: Some(btp), parent: None, parent_open: false, unknown: false });
         }
 
+        if unwinds(&n.items) && got.is_empty() {
+            // whether a span that is left by a panic completes is C05's business; here: if it is emitted, with the right ids
+            cx.dont_care();
+            return Ok(Active { tp: Some(btp), parent: None, parent_open: true, unknown: false });
+        }
         vassert!(cx, !got.is_empty(), "sampled-span-not-emitted", "node {} is in a sampled trace but no span event reached the emitter", n.id);
         vassert!(cx, got.len() <= 1, "span-event-duplicated", "node {} emitted {} span events", n.id, got.len());
         let Some(r) = got.first() else { return Ok(lost) };
@@ -338,32 +372,102 @@ impl<'a> Judge<'a> {
     fn items(&mut self, items: &[PItem], a: Active, cx: &mut Cx) -> Res {
         for it in items {
             self.item(it, a, cx)?;
+            if self.unwinding {
+                // a planned panic is travelling up: the rest of this list never runs
+                break;
+            }
         }
         Ok(())
+    }
+
+    /// A planned panic has just left a scope that had established a traceparent.
+    fn unwound_through(&mut self, what: UnwoundScope, sampled: bool) {
+        self.unwound_scopes += 1;
+        match what {
+            UnwoundScope::SyncCall => self.exit_panic_sync_call = true,
+            UnwoundScope::EnterGuard => self.exit_panic_enter_guard = true,
+            UnwoundScope::Async => self.exit_panic_async = true,
+            UnwoundScope::IncomingFrame => self.exit_panic_incoming_frame = true,
+            UnwoundScope::IncomingFrameAsync => self.exit_panic_incoming_frame_async = true,
+        }
+        if sampled {
+            self.exit_panic_sampled = true
+        } else {
+            self.exit_panic_unsampled = true
+        }
+    }
+
+    /// The unwind stops here (an explicit `Catch`, or the top of a hop / service / hand-off thread).
+    fn caught(&mut self, same_thread_goes_on: bool) {
+        if self.unwinding {
+            self.unwinding = false;
+            if self.unwound_scopes > 0 && same_thread_goes_on {
+                self.after_panic = true;
+            }
+            self.unwound_scopes = 0;
+        }
     }
 
     fn item(&mut self, it: &PItem, a: Active, cx: &mut Cx) -> Res {
         match it {
             PItem::Yield => Ok(()),
+            PItem::Panic => {
+                self.unwinding = true;
+                self.unwound_scopes = 0;
+                Ok(())
+            }
+            PItem::Catch { items, post } => {
+                self.items(items, a, cx)?;
+                self.caught(true);
+                // "the previous traceparent is restored": after the unwind it is what it was before the scopes
+                self.check(*post, a, cx, "after catch_unwind")
+            }
             PItem::Event { id } => self.event(*id, a, cx),
             PItem::Check { id } => self.check(*id, a, cx, "explicit"),
             PItem::Span(n) => {
                 let inner = self.span(n, a, cx)?;
                 let saved = std::mem::replace(&mut self.in_header_scope, false);
+                // a hand-off body runs on other threads: "after a panic on this thread" does not carry over
+                let saved_after = n.form.is_handoff().then(|| std::mem::replace(&mut self.after_panic, false));
                 self.items(&n.items, inner, cx)?;
                 self.in_header_scope = saved;
+                if self.unwinding {
+                    let what = match n.form {
+                        // everything that goes through `Frame::call` (the attribute on a sync fn, `in_fn`, …)
+                        Form::SyncFn | Form::ManualCall | Form::GuardSync | Form::HandoffCall | Form::HandoffInFn => UnwoundScope::SyncCall,
+                        Form::ManualEnter | Form::HandoffEnterBack => UnwoundScope::EnterGuard,
+                        Form::AsyncFn | Form::ManualFuture | Form::GuardAsync | Form::HandoffFuture => UnwoundScope::Async,
+                    };
+                    self.unwound_through(what, inner.sampled());
+                    if !n.form.is_handoff() {
+                        // the unwind goes on through the caller: nothing after this span runs
+                        return Ok(());
+                    }
+                    // the far thread (or the task's own poll loop) catches it; the parent just goes on
+                    self.exit_panic_far_thread = true;
+                    self.caught(false);
+                }
+                if let Some(v) = saved_after {
+                    self.after_panic = v;
+                }
                 if let Some(far_end) = n.far_end {
                     self.check(far_end, if a.unknown { a } else { NOTHING }, cx, "far thread, after the span's own frame was left")?;
                 }
                 self.check(n.post, a, cx, "after span")
             }
             PItem::Join { tasks, post, .. } => {
+                let saved_after = self.after_panic;
                 for t in tasks {
+                    self.after_panic = false;
                     self.items(t, a, cx)?;
+                    if self.unwinding {
+                        return cx.fail("uncaught-panic-in-join-task", "a planned panic leaves a join task (harness: the normaliser should have removed it)");
+                    }
                 }
+                self.after_panic = saved_after;
                 self.check(*post, a, cx, "after join")
             }
-            PItem::Push { id, header, items, pre, post, .. } => {
+            PItem::Push { id, header, items, pre, post, in_async, .. } => {
                 if a.unknown {
                     return self.items(items, a, cx);
                 }
@@ -406,6 +510,10 @@ impl<'a> Judge<'a> {
                 self.check(*pre, inner, cx, "inside pushed header")?;
                 self.items(items, inner, cx)?;
                 self.in_header_scope = saved;
+                if self.unwinding {
+                    self.unwound_through(if *in_async { UnwoundScope::IncomingFrameAsync } else { UnwoundScope::IncomingFrame }, tp.sampled());
+                    return Ok(());
+                }
                 self.check(*post, a, cx, "after pushed header")
             }
             PItem::Service { id, items, pre, end, post } => {
@@ -426,13 +534,24 @@ impl<'a> Judge<'a> {
                 };
                 self.downstream_spans += count_spans(items);
                 let saved = std::mem::replace(&mut self.in_header_scope, true);
+                let saved_after = std::mem::replace(&mut self.after_panic, false);
                 self.check(*pre, inner, cx, "next service, inside received header")?;
                 self.items(items, inner, cx)?;
                 self.in_header_scope = saved;
+                if self.unwinding {
+                    // the request handler panicked: the server thread catches it, the received header's
+                    // `push().call(..)` frame was unwound through
+                    if inner.tp.is_some() {
+                        self.unwound_through(UnwoundScope::IncomingFrame, inner.sampled());
+                    }
+                    self.exit_panic_far_thread = true;
+                    self.caught(false);
+                }
+                self.after_panic = saved_after;
                 self.check(*end, NOTHING, cx, "next service, after the request")?;
                 self.check(*post, a, cx, "after service hop")
             }
-            PItem::Hop { id, carry, items, pre, end, post, .. } => {
+            PItem::Hop { id, carry, fut, items, pre, end, post } => {
                 if a.unknown {
                     return self.items(items, a, cx);
                 }
@@ -470,8 +589,18 @@ impl<'a> Judge<'a> {
                         _ => a,
                     }
                 };
+                let saved_after = std::mem::replace(&mut self.after_panic, false);
                 self.check(*pre, inner, cx, "hop thread, inside the carried frames")?;
                 self.items(items, inner, cx)?;
+                if self.unwinding {
+                    // caught at the top of the hop thread, after the carried frames were unwound through
+                    if *carry != Carry::Nothing && inner.tp.is_some() {
+                        self.unwound_through(if *fut { UnwoundScope::IncomingFrameAsync } else { UnwoundScope::IncomingFrame }, inner.sampled());
+                    }
+                    self.exit_panic_far_thread = true;
+                    self.caught(false);
+                }
+                self.after_panic = saved_after;
                 self.check(*end, NOTHING, cx, "hop thread, after the frames")?;
                 self.check(*post, a, cx, "after hop")
             }
@@ -536,6 +665,18 @@ pub fn judge(case: &Case, prog: &Prog, recs: &[Rec], log: &[L], cx: &mut Cx) -> 
         handoffs: 0,
         handoff_sampled_with_descendants: false,
         handoff_unsampled_nonroot_with_descendants: false,
+        unwinding: false,
+        unwound_scopes: 0,
+        after_panic: false,
+        exit_panic_sync_call: false,
+        exit_panic_enter_guard: false,
+        exit_panic_async: false,
+        exit_panic_incoming_frame: false,
+        exit_panic_incoming_frame_async: false,
+        exit_panic_far_thread: false,
+        exit_panic_sampled: false,
+        exit_panic_unsampled: false,
+        after_panic_new_root: false,
     };
 
     for r in recs {
@@ -595,6 +736,7 @@ pub fn judge(case: &Case, prog: &Prog, recs: &[Rec], log: &[L], cx: &mut Cx) -> 
     }
 
     j.items(&prog.items, NOTHING, cx)?;
+    vassert!(cx, !j.unwinding, "uncaught-panic-at-top", "a planned panic reaches the top of the case (harness: the normaliser should have removed it)");
     j.check(prog.final_check, NOTHING, cx, "end of case")?;
 
     // nothing may be left over: every span event / event / sampler call was claimed by a program point
@@ -629,6 +771,15 @@ pub fn judge(case: &Case, prog: &Prog, recs: &[Rec], log: &[L], cx: &mut Cx) -> 
     cx.class_if(!j.hop_entry.is_empty(), "thread-hop-carried");
     cx.class_if(j.frame_current_hop_with_spans, "frame-current-hop-with-spans");
     cx.class_if(migrated_polls > 0, "async-join-polls-migrate-threads");
+    cx.class_if(j.exit_panic_sync_call, "exit:panic-sync-call");
+    cx.class_if(j.exit_panic_enter_guard, "exit:panic-enter-guard");
+    cx.class_if(j.exit_panic_async, "exit:panic-async");
+    cx.class_if(j.exit_panic_incoming_frame, "exit:panic-incoming-frame");
+    cx.class_if(j.exit_panic_incoming_frame_async, "exit:panic-incoming-frame-async");
+    cx.class_if(j.exit_panic_far_thread, "exit:panic-caught-on-far-thread");
+    cx.class_if(j.exit_panic_sampled, "exit:panic-sampled-scope");
+    cx.class_if(j.exit_panic_unsampled, "exit:panic-unsampled-scope");
+    cx.class_if(j.after_panic_new_root, "after-panic:new-root-trace");
     cx.class_if(j.handoffs > 0, "own-frame-handoff");
     cx.class_if(j.handoff_sampled_with_descendants, "own-frame-handoff-sampled-with-descendants");
     cx.class_if(j.handoff_unsampled_nonroot_with_descendants, "own-frame-handoff-unsampled-nonroot-with-descendants");
